@@ -96,7 +96,9 @@ def _comp(prop, tier, seed, t0, text, extra_specs=()):
     w = _w(tier)
     known = load_known(prop)
     specs = [('harness.comp', 'comp_task', (prop, m, w, known)) for m in isa.BASE]
-    specs += list(extra_specs)
+    pspecs, ntl, gap_bits = _product_specs(prop, tier, seed)
+    specs += pspecs
+    text += '; plus %d layout templates (natural alignment: no odd-sized data or odd align in front of code) in both modes with shared gaps (0..2^%d) and li values' % (ntl, gap_bits)
     res = pmap(specs)
     return finish(prop, tier, seed, res, t0,
                   bounds=dict(mnemonics=len(isa.BASE), operand_widths=_wtext(w),
@@ -116,3 +118,65 @@ def run_C12(tier, seed, t0):
 
 def run_C20(tier, seed, t0):
     return _comp('C20', tier, seed, t0, 'every path that stays at 32 bits is outside the quantifier-free eligibility predicate')
+
+
+def _layout_specs(prop, tier, seed):
+    from . import templates
+    tl = list(templates.CURATED)
+    gap_bits, k_bits, max_paths = 23, 34, 600
+    if tier == 'thorough':
+        tl += templates.enumerated(2, seed, 60)
+        gap_bits, k_bits, max_paths = 26, 40, 3000
+    specs = []
+    tl = [(n, l) for n, l in tl if templates.relevant(prop, l)]
+    for name, lines in tl:
+        for c in (False, True):
+            specs.append(('harness.layout', 'layout_task', (prop, name, lines, c, gap_bits, k_bits, max_paths)))
+    return specs, dict(templates=len(tl), template_lines='<= %d' % max(len(l) for _, l in tl),
+                       gaps='each gap 0..2^%d bytes (symbolic file size)' % gap_bits,
+                       li_values='signed %d-bit' % k_bits, modes='compression off and on',
+                       alignments='1,2,3,4,5,8,16,64,4096')
+
+
+LAYOUT_STUBS = STUBS_ASM + ['virtual file system: include_bytes of a file whose size is a symbolic integer (the gap); content opaque']
+LAYOUT_OUTSIDE = ['programs other than the templates (longer programs, include trees)', 'gaps beyond the stated size']
+
+
+def _run_layout(prop, tier, seed, t0, extra_specs=(), extra_bounds=None):
+    specs, bounds = _layout_specs(prop, tier, seed)
+    specs = list(extra_specs) + specs
+    if extra_bounds:
+        bounds.update(extra_bounds)
+    res = pmap(specs)
+    return finish(prop, tier, seed, res, t0, bounds=bounds, stubs=LAYOUT_STUBS,
+                  assumptions=['spec/sem.py decodes branch / jal / auipc+jalr targets per the ISA manual',
+                               'label offsets are recomputed from the chunk list handed to the real resolve_blobs (oracle 4.6)'] + LAYOUT_STUBS,
+                  outside=LAYOUT_OUTSIDE)
+
+
+def run_C03(tier, seed, t0):
+    return _run_layout('C03', tier, seed, t0)
+
+
+def run_C08(tier, seed, t0):
+    return _run_layout('C08', tier, seed, t0)
+
+
+def run_C09(tier, seed, t0):
+    ns = list(range(1, 65)) + [100, 128, 256, 512, 1000, 1024, 4096, 4097, 65536]
+    pb = 24 if tier == 'thorough' else 20
+    extra = [('harness.kernels', 'align_task', (ns[i::16], pb)) for i in range(16)]
+    if tier == 'thorough':
+        extra.append(('harness.kernels', 'align_symN_task', (64, 16)))
+    return _run_layout('C09', tier, seed, t0, extra, dict(align_kernel='Align.resolution_size for pos 0..2^%d and N in 1..64, 100, 128, ..., 65536' % pb))
+
+
+def _product_specs(prop, tier, seed):
+    from . import templates
+    tl = list(templates.CURATED)
+    gap_bits, k_bits, max_paths = 23, 34, 600
+    if tier == 'thorough':
+        tl += templates.enumerated(2, seed, 60)
+        gap_bits, k_bits, max_paths = 26, 40, 3000
+    tl = [(n, l) for n, l in tl if templates.natural_alignment(l)]
+    return [('harness.layout', 'product_task', (prop, n, l, gap_bits, k_bits, max_paths)) for n, l in tl], len(tl), gap_bits
